@@ -324,6 +324,9 @@ type lvFull struct {
 }
 
 func driveLongValues(c *driverCtx, prop string) {
+	if prop == "C03" {
+		driveOutOfWidth(c, "C03") // a stored value outside the destination's width is an error wherever it sits
+	}
 	const sj = `{"type":"record","name":"LV","fields":[{"name":"s","type":"string"},{"name":"b","type":"bytes"},{"name":"m","type":{"type":"map","values":"long"}},{"name":"a","type":"long"},{"name":"t","type":["null","string"]},{"name":"z","type":"long"}]}`
 	sn, err := schemaNodeFromJSON([]byte(sj))
 	if err != nil {
